@@ -30,6 +30,7 @@ type vfC20Run struct {
 	kind      string
 	maxClosed int
 	maxIdle   int
+	big       bool // large windows and payloads (only with ThrottleOutOfOrderWrites: the throttle's own budget, 1024 bytes and up, must be able to bind)
 	throttle  bool
 	ws        WriteScheduler
 	sc        *serverConn
@@ -210,6 +211,13 @@ func (r *vfC20Run) idlePrelude(rng *rand.Rand, ids []uint32) bool {
 
 func (r *vfC20Run) history(rng *rand.Rand, ids []uint32, steps int) {
 	r.reset()
+	r.big = r.throttle && rng.Intn(2) == 0
+	if r.big {
+		r.sc.flow.n = 20000
+		r.emit(vfC20Ev{"op": "setcwin", "v": 20000})
+		r.sc.maxFrameSize = 16
+		r.emit(vfC20Ev{"op": "setmf", "v": 16})
+	}
 	if r.kind == "prio" {
 		switch rng.Intn(4) {
 		case 0, 1:
@@ -243,6 +251,10 @@ func (r *vfC20Run) history(rng *rand.Rand, ids []uint32, steps int) {
 			}
 			r.streams[id] = st
 			r.emit(vfC20Ev{"op": "open", "s": id})
+			if r.big {
+				st.flow.n = 5000
+				r.emit(vfC20Ev{"op": "setwin", "s": id, "v": 5000})
+			}
 		case c < 20 && len(open) > 0:
 			id := open[rng.Intn(len(open))]
 			if !r.guard("close", func() { r.ws.CloseStream(id) }) {
@@ -285,6 +297,9 @@ func (r *vfC20Run) history(rng *rand.Rand, ids []uint32, steps int) {
 			default:
 				s := open[rng.Intn(len(open))]
 				n := []int{0, 1, 2, 5, 7}[rng.Intn(5)]
+				if r.big {
+					n = []int{7, 1500, 3000}[rng.Intn(3)]
+				}
 				p := make([]byte, n)
 				for j := range p {
 					p[j] = byte(id)
@@ -300,18 +315,27 @@ func (r *vfC20Run) history(rng *rand.Rand, ids []uint32, steps int) {
 		case c < 70 && len(open) > 0:
 			s := open[rng.Intn(len(open))]
 			v := int32([]int{0, 1, 3, 6}[rng.Intn(4)])
+			if r.big {
+				v = int32([]int{0, 2000, 5000}[rng.Intn(3)])
+			}
 			if r.streams[s].flow.n != v {
 				r.streams[s].flow.n = v
 				r.emit(vfC20Ev{"op": "setwin", "s": s, "v": v})
 			}
 		case c < 74:
 			v := int32([]int{0, 1, 4, 10}[rng.Intn(4)])
+			if r.big {
+				v = int32([]int{0, 3000, 20000}[rng.Intn(3)])
+			}
 			if r.sc.flow.n != v {
 				r.sc.flow.n = v
 				r.emit(vfC20Ev{"op": "setcwin", "v": v})
 			}
 		case c < 77:
 			v := int32([]int{1, 2, 3, 16}[rng.Intn(4)])
+			if r.big {
+				v = int32([]int{16, 1200, 16384}[rng.Intn(3)])
+			}
 			if r.sc.maxFrameSize != v {
 				r.sc.maxFrameSize = v
 				r.emit(vfC20Ev{"op": "setmf", "v": v})
